@@ -288,6 +288,13 @@ def aliasing(ctx, pairs, rng):
     for op in seq:
         apply_real(m1, op)
     case = {"pairs": pairs, "ops_on_first_mapping": seq}
+    # the list multi_items() hands out is the caller's: sorting, extending or emptying it changes no mapping
+    for name, o in others.items():
+        got = o.multi_items()
+        if isinstance(got, list):
+            got.append(("zz", "added-by-the-caller"))
+            got.reverse()
+            del got[:1]
     if src != keep:
         ctx.violation("aliasing|caller's-list-modified", case, f"{keep!r} -> {src!r}")
     for name, o in others.items():
@@ -411,7 +418,7 @@ def immutable_views(ctx, pairs, rng):
         pass
 
 
-QS_ALPHA = ["a", "b", "", " ", "+", "%", "&", "=", ";", "é", "中", "%41", "a b", "\x00", "#", "?", "/", "1", "=="]
+QS_ALPHA = ["a", "b", "", " ", "+", "%", "&", "=", ";", "l1\r\nl2", "\r", "\n", "é", "中", "%41", "a b", "\x00", "#", "?", "/", "1", "=="]
 
 
 def run(ctx):
